@@ -101,8 +101,12 @@ def own_c04(tier, seed, params):
                     # mixed drop-ness selects the needs_drop branches
                     out.append("op=zip form=%s form2=%s n=%d kind=tr kind2=pl fault=%s" % (fa, fb, n, ft))
                     out.append("op=zip form=%s form2=%s n=%d kind=pl kind2=tr fault=%s" % (fa, fb, n, ft))
+        if n <= 5:
+            out.extend(own_unit(n, pts, kinds=("tr",)))
         for ft in ["none"] + ["clone:%d" % k for k in fault_points(n, n, tier)]:
             out.append("op=clone n=%d fault=%s" % (n, ft))
+            for boxed in (0, 1):
+                out.append("op=clone_from n=%d boxed=%d fault=%s" % (n, boxed, ft))
         # by-value iterator: clone / fold / rfold from several positions
         if n <= 8:
             for f in range(0, n + 1):
@@ -119,6 +123,17 @@ def own_c04(tier, seed, params):
                 for try_ in (0, 1):
                     for k in ["none"] + fault_points(n, min(cnt, n) + 2, tier):
                         out.append("op=collect n=%d boxed=%d try=%d hint=0,none script=%s fault=%s" % (n, boxed, try_, script, "none" if k == "none" else "poll:%d" % k))
+    return out
+
+
+def own_clone_from(ns):
+    out = []
+    for n in ns:
+        for boxed in (0, 1):
+            out.append("op=clone_from n=%d boxed=%d fault=none" % (n, boxed))
+            for k in range(n):
+                out.append("op=clone_from n=%d boxed=%d fault=dtor:%d" % (n, boxed, 1 + k))
+                out.append("op=clone_from n=%d boxed=%d fault=clone:%d" % (n, boxed, k))
     return out
 
 
@@ -155,6 +170,9 @@ def own_c05(tier, seed, params):
                 for k in range(b - f):
                     out.append("op=iter_fold n=%d front=%d back=%d fault=call:%d" % (n, f, b, k))
                     out.append("op=iter_rfold n=%d front=%d back=%d fault=call:%d" % (n, f, b, k))
+    # `clone_from` has to dispose of the old contents: each old element's destructor panics in turn; `T::clone`
+    # panicking at every call; through the array and through `Box<GenericArray>` (which forwards to it)
+    out.extend(own_clone_from(range(0, 7)))
     # teardown of an intermediate value on a path that is not already unwinding: `try_from_iter` (stack and boxed)
     # given too few or too many items drops what it had collected (and the surplus item) and returns `Err` — one of
     # those destructors panics
@@ -205,9 +223,25 @@ def own_c07(tier, seed, params):
     return out
 
 
+def own_unit(n, faults, kinds=("tr", "pl")):
+    """operations whose *result* type is `()` — zero-sized and without destructor: the closure still has to be called
+    once per index"""
+    out = []
+    for ft in faults:
+        out.append("op=generate_unit n=%d fault=%s" % (n, ft))
+        out.append("op=boxed_generate_unit n=%d fault=%s" % (n, ft))
+        for kind in kinds:
+            for fm in "ormb":
+                out.append("op=map_unit form=%s n=%d kind=%s fault=%s" % (fm, n, kind, ft))
+            for fa, fb in (("o", "o"), ("o", "r"), ("r", "o"), ("r", "r")):
+                out.append("op=zip_unit form=%s form2=%s n=%d kind=%s kind2=%s fault=%s" % (fa, fb, n, kind, kind, ft))
+    return out
+
+
 def own_c08(tier, seed, params):
     out = []
     for n in OWN_LENS:
+        out.extend(own_unit(n, ["none"]))
         out.append("op=generate n=%d fault=none" % n)
         out.append("op=default n=%d fault=none" % n)
         for kind in ("tr", "pl"):
@@ -802,7 +836,16 @@ def filldefault(tier, seed, params):
         ns = FILL_NS if (kind in ("u8", "slot") or tier == "thorough") else [0, 1, 2, 3, 4, 5, 7, 8, 15, 16, 17, 31, 32, 33, 63, 64, 127, 128, 129, 1023, 1024]
         for n in ns:
             out.append("op=const_item kind=%s n=%d" % (kind, n))
+    # very long arrays (typenum names 2^k and 10^k): the structural constant needs O(log N) evaluation steps
+    for kind, n in (("u8", 1048576), ("u8", 1000000), ("unit", 1048576), ("u64", 524288), ("slot", 262144)):
+        out.append("op=const_item kind=%s n=%d" % (kind, n))
     return out
+
+
+def filldefault_c18(tier, seed, params):
+    """const_default / ConstDefault::DEFAULT in const and static items: small lattice plus the very long arrays"""
+    return [l for l in filldefault(tier, seed, params)
+            if int(l.split("n=")[1]) >= 65536 or (l.split()[1] in ("kind=u8", "kind=slot") and int(l.split("n=")[1]) in (0, 1, 2, 3, 4, 5, 7, 8, 16, 17, 33, 64, 255, 256, 1000, 1024))]
 
 
 XMUTE_PAIRS = [(0, 4, 4), (1, 4, 2), (2, 2, 4), (3, 8, 6), (4, 6, 8), (5, 6, 6), (6, 0, 0), (7, 0, 1), (8, 1, 0), (9, 56, 48),
